@@ -241,7 +241,7 @@ class LiteralDuplicationTranslator:
 
     def __init__(self, prg: list[AST], input_predicates: list[Predicate]):
         self.unique_names = UniqueNames(prg, input_predicates)
-        self.domain_predicates = DomainPredicates(self.unique_names, prg)
+        self.domain_predicates = DomainPredicates(self.unique_names, prg, input_predicates)
 
     @staticmethod
     def compute_size_from_body(rule: AST) -> int:
